@@ -11,6 +11,8 @@ package main
 
 //@ func (*Runner).printLinterError [C04]
 //@   requires r != nil && err != nil && r.config != nil
+//@   only-writers [counters-written-only-here C04] F:cmd/falco.Runner.errors F:cmd/falco.Runner.warnings F:cmd/falco.Runner.infos : printLinterError
+//@   only-writers [verbosity-set-only-by-the-constructor C04] F:cmd/falco.Runner.level : NewRunner
 //@   ensures [errors] r.errors == old(r.errors) + b2i(severity == linter.ERROR)
 //@   ensures [warnings] r.warnings == old(r.warnings) + b2i(severity == linter.WARNING)
 //@   ensures [infos] r.infos == old(r.infos) + b2i(severity == linter.INFO)
